@@ -918,7 +918,8 @@ fn op_kind(o: &Op) -> u8 {
 }
 
 fn sel<T>(v: &[T], idx: u8) -> Option<usize> {
-    if v.is_empty() { None } else { Some(idx as usize % v.len()) }
+    // 255 = the newest item in the channel
+    if v.is_empty() { None } else if idx == 255 { Some(v.len() - 1) } else { Some(idx as usize % v.len()) }
 }
 
 fn take_item<T: Copy>(cx: &mut Cx, ch: &mut Vec<(T, u64)>, idx: u8, dup: bool) -> Option<T> {
@@ -1418,7 +1419,23 @@ impl Engine for CidSim {
                 continue;
             }
             if byz_issue && f.one_in(40) {
-                ops.push(Op::PeerIssue { slot, bump: 0, byz: true });
+                if f.one_in(2) {
+                    // over-issue hidden by reordering: the channel is drained, the peer issues up to the limit and
+                    // one id more, and the frames arrive newest first, so that the frame which takes the endpoint
+                    // over its limit is one that fills a gap, not the one with the largest sequence number
+                    for _ in 0..10 {
+                        ops.push(Op::DeliverNewCid { slot, idx: 0, dup: false });
+                    }
+                    for _ in 0..9 {
+                        ops.push(Op::PeerIssue { slot, bump: 0, byz: false });
+                    }
+                    ops.push(Op::PeerIssue { slot, bump: 0, byz: true });
+                    for _ in 0..10 {
+                        ops.push(Op::DeliverNewCid { slot, idx: 255, dup: false });
+                    }
+                } else {
+                    ops.push(Op::PeerIssue { slot, bump: 0, byz: true });
+                }
                 continue;
             }
             if conflict && f.one_in(80) {
